@@ -9,6 +9,7 @@ import (
 	"regexp"
 	"runtime"
 	"runtime/debug"
+	"strconv"
 	"strings"
 	"time"
 
@@ -93,6 +94,18 @@ func lineColOf(text []byte, idx int) (line, col int, lineText string, ok bool) {
 	return line, col, string(text[start:end]), true
 }
 
+var reUnicodeEscape = regexp.MustCompile(`\\u[0-9a-fA-F]{4}`)
+
+func decodeUnicodeEscapes(b []byte) []byte {
+	return reUnicodeEscape.ReplaceAllFunc(b, func(m []byte) []byte {
+		n, err := strconv.ParseUint(string(m[2:]), 16, 32)
+		if err != nil {
+			return m
+		}
+		return []byte(string(rune(n)))
+	})
+}
+
 func (o *crOut) judgeError(site string, err error, input []byte) {
 	if err == nil || errors.Is(err, io.EOF) {
 		return
@@ -122,9 +135,10 @@ func (o *crOut) judgeError(site string, err error, input []byte) {
 	}
 	if m := rePointer.FindString(msg); m != "" {
 		// a hexadecimal number that the input itself contains is a quotation, not a pointer
-		quoted := bytes.Contains(input, []byte(m))
+		// (also when the input spells it with \uXXXX escapes: diagnostics quote the decoded text)
+		quoted := bytes.Contains(input, []byte(m)) || bytes.Contains(decodeUnicodeEscapes(input), []byte(m))
 		for _, t := range o.texts {
-			quoted = quoted || bytes.Contains(t, []byte(m))
+			quoted = quoted || bytes.Contains(t, []byte(m)) || bytes.Contains(decodeUnicodeEscapes(t), []byte(m))
 		}
 		if !quoted {
 			o.add("c16", "message-dumps-internals:"+site, fmt.Sprintf("%s: message %.200q for %.120q", site, msg, input))
